@@ -369,6 +369,16 @@ def _qmap_cols(node):
     return None
 
 
+def _eff_col(e):
+    """column of a q_map element expression, looking through `q_map[row, :N][k]`"""
+    if isinstance(e, ast.Subscript) and isinstance(e.slice, ast.Constant) and isinstance(
+            e.slice.value, int):
+        inner = _qmap_cols(e.value)
+        if inner is not None and inner.startswith(':') and inner[1:].isdigit():
+            return str(e.slice.value)
+    return _qmap_cols(e)
+
+
 def check_qmap_roles(prog, rep):
     m = prog.module(NPC)
     mc = prog.module(CH)
@@ -385,12 +395,34 @@ def check_qmap_roles(prog, rep):
                 continue
             if col in (':', ):
                 continue
+            pn = parent(node)
+            if col.startswith(':') and col[1:].isdigit() and isinstance(pn, ast.Subscript) and \
+                    pn.value is node and isinstance(pn.slice, ast.Constant) and isinstance(
+                        pn.slice.value, int) and 0 <= pn.slice.value < int(col[1:]):
+                # element of an unpacked row prefix: q_map[row, :3][k] is column k
+                col = str(pn.slice.value)
+                node = pn
             n += 1
             st = node
             while not isinstance(st, ast.stmt):
                 st = parent(st)
             rep.instance('QMAP-roles', {'function': qual, 'use': unparse(node),
                                         'stmt': key_text(st)[:70]})
+            if col == ':3' and isinstance(st, ast.Assign) and isinstance(
+                    st.targets[0], ast.Tuple) and len(st.targets[0].elts) == 3 and all(
+                        isinstance(e, ast.Name) for e in st.targets[0].elts) and st.value is node:
+                # start, stop, qind = q_map[row, :3]: the names carry the column roles
+                names3 = [e.id for e in st.targets[0].elts]
+                for s2 in stmts_of(f):
+                    if isinstance(s2, ast.Assign) and 'qdata' in unparse(s2.targets[0]) and \
+                            isinstance(s2.value, ast.Name) and s2.value.id in names3:
+                        k3 = names3.index(s2.value.id)
+                        if role == 'out' and k3 != 2:
+                            rep.violation('QMAP-roles', mod, qual, 'qdata-column:%d' % k3,
+                                          '`%s`: the block index of the combined leg is q_map[:, 2] '
+                                          '(outgoing qindex), not column %d' % (key_text(s2), k3),
+                                          s2.lineno)
+                continue
             if col not in ('0', '1', '2', ':2', '3:'):
                 rep.violation('QMAP-roles', mod, qual, 'column:' + col,
                               '`%s` uses q_map column(s) %s; the layout is [start, stop, outgoing '
@@ -415,6 +447,9 @@ def check_qmap_roles(prog, rep):
                     rep.violation('QMAP-roles', mod, qual, 'extent',
                                   '`%s`: the extent inside the fused block is q_map[:,1]-q_map[:,0]'
                                   % unparse(p), p.lineno)
+            elif col == '1' and isinstance(p, ast.Call) and unparse(p.func) == 'slice' and \
+                    len(p.args) == 2 and p.args[1] is node and _eff_col(p.args[0]) == '0':
+                pass   # slice(start, stop) of one q_map row
             elif col == '1':
                 rep.violation('QMAP-roles', mod, qual, 'lone-stop',
                               '`%s`: column 1 (stop) used outside a stop-start difference' %
